@@ -110,3 +110,27 @@ Section Driver.
   Definition report_model (p : profile) (units : list (string * string)) (rc : report_cfg) : string * profile :=
     let '(err, p', _) := apply_focus M V uts (with_label_nodes p rc) units (rc_cfg rc) in (err, p').
 End Driver.
+
+(* ---------------------------------------------------------------- Profile.NumLabelUnits
+   (profile/profile.go; feeds identifyNumLabelUnits -> compileTagFilter): the unit of a numeric tag is
+   the FIRST non-empty unit met for the key, walking the samples in order (only samples that carry the
+   tag, their unit list in order); a key that never carries a unit gets "bytes" (alignment, request) or
+   its own name.  Result listed by key (byte order), every key some sample carries. *)
+Fixpoint ins_sorted (x : string) (l : list string) : list string :=
+  match l with
+  | [] => [x]
+  | y :: r => if String.eqb x y then l else if str_leb x y then x :: l else y :: ins_sorted x r
+  end.
+
+Definition num_label_units (p : profile) : list (string * string) :=
+  let keys := fold_left (fun acc k => ins_sorted k acc) (flat_map (fun s => map fst (s_numlabel s)) (p_sample p)) [] in
+  map (fun k =>
+         let units := flat_map (fun s =>
+                         if existsb (fun kv => String.eqb (fst kv) k) (s_numlabel s)
+                         then match find (fun ku => String.eqb (fst ku) k) (s_numunit s) with Some ku => snd ku | None => [] end
+                         else []) (p_sample p) in
+         (k, match find (fun u => negb (String.eqb u "")) units with
+             | Some u => u
+             | None => if String.eqb k "alignment" || String.eqb k "request" then "bytes"%string else k
+             end))
+      keys.
